@@ -29,6 +29,17 @@ let handle (line : string) : string =
   | ["write"; indent; mask; limit; data] ->
       let d = parse_jv { s = data; i = 0 } in
       string_of_bytes (model_write (z_of_int (int_of_string indent)) (z_of_int (int_of_string mask)) (z_of_int (int_of_string limit)) d)
+  | ["diff"; a; b; ign] ->
+      let pa = parse_jv { s = a; i = 0 } in
+      let pb = parse_jv { s = b; i = 0 } in
+      (* ignore paths: ';'-separated, each a space-separated list of k<hex> / i<int> / * *)
+      let elem w = match w.[0] with
+        | 'k' -> PKey (bytes_of_hex (String.sub w 1 (String.length w - 1)))
+        | 'i' -> PIdx (z_of_string (String.sub w 1 (String.length w - 1)))
+        | _ -> PWild in
+      let paths = List.filter (fun x -> x <> "") (String.split_on_char ';' ign) in
+      let ig = List.map (fun p -> List.map elem (List.filter (fun x -> x <> "") (String.split_on_char ' ' p))) paths in
+      string_of_bytes (model_diff pa pb ig)
   | ["match"; eq; data] ->
       let e = parse_eqn { s = eq; i = 0 } in
       let d = parse_jv { s = data; i = 0 } in
